@@ -28,6 +28,11 @@ chk("C11", "shadowsym", "model_checking",
     "Trusted: gen/refdecl.py expression reader for the C++ meaning; the harness's reader of emitted C/Fortran lines; z3. Outside: int overflow, non-decimal literals, cross-enum references, the Python wrapper's enum constants.",
     "symbolic execution of the real Python with z3 integer literals (shadowsym); equality of three z3 terms per enumerator", "DESIGN.md 3/C11")
 
+chk("C12", "shadowsym", "model_checking",
+    "Symbolic execution of the real block emitter and reader: user splicer bodies of <= 2/3 lines x <= 4/6 characters (every character a z3 integer over all code points) flow through WrapperMixin._create_splicer -> write_lines -> write_continue into memory and back through splicer.get_splicers, then through a second generation; and through the WHOLE real pipeline (ast -> generate -> Wrapc/Wrapf/Wrapp/Wrapl) on two small libraries with the symbolic lines supplied for every splicer block the library has. Per path, z3 validity queries decide that each block holds the user's lines, complete, in order, identical up to leading indentation and trailing blanks (by character provenance), that unsupplied blocks keep their default, force > user > default, and that reading back and regenerating is a fixed point.",
+    "Trusted: shadowsym proxies; z3; block markers are located by the harness. Domain: lines not starting in column one with # @ ^ + -; the recorded known-finding line shapes (trailing +/-, interior TAB, form feed, leading CR) are excluded from the main query and replayed separately. Longer bodies are outside the bound.",
+    "dynamic symbolic execution of Python byte-code with z3 (shadowsym), kernel and whole-pipeline level", "DESIGN.md 3/C12")
+
 NA = {
  "C01": "generated Fortran run-time behaviour: no Fortran front end yields anything a solver can execute; C-side kernels covered under C02/C06/C10",
  "C04": "finite structural comparison of two emitted texts with a Fortran processor's interoperability rules as oracle; nothing symbolic to decide",
